@@ -268,8 +268,11 @@ int main(int argc, char *argv[])
         pdu_length += res;
         cf_length += res;
 
+        // Close the packet early if another message of maximum size would not fit
+        size_t max_msg_size = AVTP_CAN_HEADER_LEN +
+                ((can_variant == AVTP_CAN_FD) ? CANFD_MAX_DLEN : CAN_MAX_DLEN);
         int i = 0;
-        while (i < num_acf_msgs) {
+        while (i < num_acf_msgs && pdu_length + max_msg_size <= MAX_PDU_SIZE) {
             // Get payload -- will 'spin' here until we get the requested number
             //                of CAN frames.
             if(can_variant == AVTP_CAN_FD){
